@@ -40,7 +40,7 @@ Heading(l, n) == <<Ev("open", "heading", "", ToString(l)), Ev("open", "inline", 
                    Ev("close", "inline", "", ""), Ev("close", "heading", "", "")>>
 LeafEvents(k, n) ==
   CASE k = "para" -> Para(n)
-    [] k = "h1" -> Heading(1, n) [] k = "h2" -> Heading(2, n) [] k = "h3" -> Heading(3, n)
+    [] k = "h1" -> Heading(1, n) [] k = "h2" -> Heading(2, n) [] k = "h3" -> Heading(3, n) [] k = "h4" -> Heading(4, n)
     [] k = "hr" -> <<Ev("leaf", "hr", "", "")>>
     [] k = "code" -> <<Ev("leaf", "code_block", Txt(n) \o "\n", "")>>
     [] k = "fence" -> <<Ev("leaf", "fence", Txt(n) \o "\n", "python")>>
